@@ -33,6 +33,10 @@ extern int mpt_parse_format_pre(const MPT_STRUCT(parser_format) *fmt, MPT_STRUCT
 		if (mpt_parse_ncheck(path->base + path->off + path->len, parse->valid, parse->name.sect) < 0) {
 			return MPT_ERROR(BadType);
 		}
+		/* path storage is created by the first saved character */
+		if (mpt_path_addchar(path, curr) < 0) {
+			return MPT_ERROR(MissingBuffer);
+		}
 		if (mpt_path_add(path, parse->valid) < 0) {
 			return MPT_ERROR(BadOperation);
 		}
